@@ -103,6 +103,12 @@ func (l *naiveCreator) CreateWithTTL(ctx context.Context, key []byte, val []byte
 				}
 				oldRev = curRev
 			}
+			if isTombstone {
+				// the key is (still) deleted, but its deletion record carries a revision at or above the one this
+				// create was dealt (the repair of an uncertain delete rewrote it meanwhile, or the allocator lags):
+				// nothing can be written below it, and the condition "key is absent" did not fail - an error
+				return errors.Errorf("create at revision %d refused: the key is deleted at revision %d", revision, prevRevision)
+			}
 			return storage.ErrCASFailed
 		}
 		return err
